@@ -18,6 +18,7 @@ import (
 	"strings"
 	"time"
 
+	"github.com/slackhq/nebula/cert"
 	"go.step.sm/crypto/jose"
 	"golang.org/x/crypto/ssh"
 
@@ -38,6 +39,11 @@ type Prov struct {
 	pool     *x509.CertPool // x5c roots
 	leaf     *x509.Certificate
 	leafKey  crypto.Signer
+	root     *x509.Certificate
+	rootKey  crypto.Signer
+	nebCA    *cert.NebulaCertificate
+	nebPool  *cert.NebulaCAPool
+	nebCAKey *ecdsa.PrivateKey
 	oidcKeys jose.JSONWebKeySet
 	admins   []string
 	domains  []string
@@ -149,7 +155,7 @@ func newWorld(spec worldSpec) *World {
 	leaf, lk := leafFrom(root, rk, "x5c-client", x509.KeyUsageDigitalSignature, []x509.ExtKeyUsage{x509.ExtKeyUsageClientAuth})
 	pool := x509.NewCertPool()
 	pool.AddCert(root)
-	add(&Prov{Ty: "x5c", Name: "x5c", Init: true, SSH: true, pool: pool, leaf: leaf, leafKey: lk},
+	add(&Prov{Ty: "x5c", Name: "x5c", Init: true, SSH: true, pool: pool, leaf: leaf, leafKey: lk, root: root, rootKey: rk},
 		&provisioner.X5C{Type: "X5C", Name: "x5c", Roots: pem.EncodeToMemory(&pem.Block{Type: "CERTIFICATE", Bytes: root.Raw}), Claims: sshClaims})
 	if spec.full {
 		// a second x5c with another root ("other CA's" certificates)
@@ -157,7 +163,7 @@ func newWorld(spec worldSpec) *World {
 		leaf2, lk2 := leafFrom(root2, rk2, "x5c-client-2", x509.KeyUsageDigitalSignature, []x509.ExtKeyUsage{x509.ExtKeyUsageClientAuth})
 		pool2 := x509.NewCertPool()
 		pool2.AddCert(root2)
-		add(&Prov{Ty: "x5c", Name: "x5c two", Init: true, SSH: false, pool: pool2, leaf: leaf2, leafKey: lk2},
+		add(&Prov{Ty: "x5c", Name: "x5c two", Init: true, SSH: false, pool: pool2, leaf: leaf2, leafKey: lk2, root: root2, rootKey: rk2},
 			&provisioner.X5C{Type: "X5C", Name: "x5c two", Roots: pem.EncodeToMemory(&pem.Block{Type: "CERTIFICATE", Bytes: root2.Raw})})
 		// k8ssa
 		kk := newJWK()
@@ -179,8 +185,15 @@ func newWorld(spec worldSpec) *World {
 		domains := []string{"example.com"}
 		add(&Prov{Ty: "oidc", Name: "oidc", ClientID: "client-abc", Issuer: issuer, Init: true, SSH: true, jwk: ok, oidcKeys: set, admins: admins, domains: domains},
 			&provisioner.OIDC{Type: "OIDC", Name: "oidc", ClientID: "client-abc", ConfigurationEndpoint: w.srv.URL, Admins: admins, Domains: domains, Claims: sshClaims})
-		// acme (no token credential at all)
+		// acme, scep (no token credential at all)
 		add(&Prov{Ty: "acme", Name: "acme", Init: true}, &provisioner.ACME{Type: "ACME", Name: "acme"})
+		add(&Prov{Ty: "scep", Name: "scep", Init: true}, &provisioner.SCEP{Type: "SCEP", Name: "scep", ChallengePassword: "secret"})
+		// nebula (P-256 CA)
+		nca, nkey := nebulaCA("neb-ca", time.Now().Add(-time.Minute), time.Now().Add(24*time.Hour))
+		npool := cert.NewCAPool()
+		must(0, addNebCA(npool, nca))
+		add(&Prov{Ty: "nebula", Name: "nebula", Init: true, SSH: true, nebCA: nca, nebCAKey: nkey, nebPool: npool},
+			&provisioner.Nebula{Type: "Nebula", Name: "nebula", Roots: must(nca.MarshalToPEM()), Claims: sshClaims})
 	}
 	if spec.ssh {
 		add(&Prov{Ty: "sshpop", Name: "sshpop", Init: true, SSH: true}, &provisioner.SSHPOP{Type: "SSHPOP", Name: "sshpop", Claims: sshClaims})
@@ -292,4 +305,38 @@ func extractFragment(audience []string) string {
 		}
 	}
 	return ""
+}
+
+// ---- nebula material (P-256, so that tokens are plain ES256)
+
+func nebulaCA(name string, nb, na time.Time) (*cert.NebulaCertificate, *ecdsa.PrivateKey) {
+	key := must(ecdsa.GenerateKey(elliptic.P256(), rand.Reader))
+	priv := must(key.ECDH())
+	_, ipn, _ := net.ParseCIDR("10.1.0.0/16")
+	nc := &cert.NebulaCertificate{Details: cert.NebulaCertificateDetails{Name: name, Groups: []string{"test"}, Ips: []*net.IPNet{ipn}, Subnets: []*net.IPNet{},
+		NotBefore: nb, NotAfter: na, PublicKey: priv.PublicKey().Bytes(), IsCA: true, Curve: cert.Curve_P256}}
+	if err := nc.Sign(cert.Curve_P256, priv.Bytes()); err != nil {
+		panic(err)
+	}
+	return nc, key
+}
+
+func addNebCA(pool *cert.NebulaCAPool, ca *cert.NebulaCertificate) error {
+	pem := must(ca.MarshalToPEM())
+	_, err := pool.AddCACertificate(pem)
+	return err
+}
+
+func nebulaLeaf(ca *cert.NebulaCertificate, caKey *ecdsa.PrivateKey, name string, nb, na time.Time) (*cert.NebulaCertificate, *ecdsa.PrivateKey) {
+	key := must(ecdsa.GenerateKey(elliptic.P256(), rand.Reader))
+	priv := must(key.ECDH())
+	ip, ipn, _ := net.ParseCIDR("10.1.0.7/16")
+	ipn.IP = ip
+	nc := &cert.NebulaCertificate{Details: cert.NebulaCertificateDetails{Name: name, Ips: []*net.IPNet{ipn}, Subnets: []*net.IPNet{}, Groups: []string{"test"},
+		NotBefore: nb, NotAfter: na, PublicKey: priv.PublicKey().Bytes(), IsCA: false, Issuer: must(ca.Sha256Sum()),
+		InvertedGroups: map[string]struct{}{"test": {}}, Curve: cert.Curve_P256}}
+	if err := nc.Sign(cert.Curve_P256, must(caKey.ECDH()).Bytes()); err != nil {
+		panic(err)
+	}
+	return nc, key
 }
